@@ -98,9 +98,9 @@ func VH_C11() {
 	for k := 0; k < steps; k++ {
 		x := vChoose(len(ls))
 		X := ls[x]
-		op := vChoose(6)
+		op := vChoose(8)
 		bs, eff := vBoolArgs()
-		jsonOp := op == 0 || op == 2 || op == 4
+		jsonOp := op == 0 || op == 2 || op == 4 || op == 6
 		var ret *Entry
 		switch op {
 		case 0:
@@ -115,6 +115,10 @@ func VH_C11() {
 			ret = X.New("n", WithJSONMode(bs...))
 		case 5:
 			ret = X.New("n", WithColorMode(bs...))
+		case 6:
+			ret = X.New(WithJSONMode(bs...)) // an anonymous child: the option is the first argument
+		case 7:
+			ret = X.New(WithColorMode(bs...))
 		}
 		if op <= 1 {
 			vAssert(ret == X, "C11: Set...Mode returns the receiver")
